@@ -9,10 +9,14 @@ def parseKind (s : String) : R ErrKind :=
   | "unexpectedEof" => pure .unexpectedEof
   | "writeZero" => pure .writeZero
   | "brokenPipe" => pure .brokenPipe
+  | "invalidData" => pure .invalidData
+  | "invalidInput" => pure .invalidInput
+  | "timedOut" => pure .timedOut
   | _ => throw s!"bad error kind {s}"
 
 def kindName : ErrKind → String
   | .other => "other" | .unexpectedEof => "unexpectedEof" | .writeZero => "writeZero" | .brokenPipe => "brokenPipe"
+  | .invalidData => "invalidData" | .invalidInput => "invalidInput" | .timedOut => "timedOut"
 
 def parseFail (j : Json) : R (Option Nat × ErrKind) :=
   match fldOpt j "fail" with
